@@ -339,13 +339,14 @@ def netErr (allow : Bool) (rs : List (LState × Bool × Bool × Bool)) : Bool :=
 def updCount (allow : Bool) (rs : List (LState × Bool × Bool × Bool)) : Nat :=
   if netErr allow rs then 0 else (rs.filter fun r => r.1.allow == allow && r.2.2.2).length
 
-/-- The whole refresh.  The engine is rebuilt from the files (`EnableFilters`)
-only if no array failed completely and something was updated. -/
+/-- The whole refresh (`refreshFiltersIntl`, as repaired by commit f646577).
+The engine is rebuilt from the files (`EnableFilters`) whenever something was
+updated — also when the other array failed completely (then the call still
+reports the network error, which is not part of this state). -/
 def refreshStep (rq : Req) (ls : List LState) (ins : List (Bool × Fetch)) : List LState :=
   let rs := phase1 rq ls ins
-  let isNetErr := (rq.block && netErr false rs) || (rq.allow && netErr true rs)
   let updNum := (if rq.block then updCount false rs else 0) + (if rq.allow then updCount true rs else 0)
-  let reload := !isNetErr && updNum != 0
+  let reload := updNum != 0
   rs.map fun r =>
     if reload then { r.1 with inForce := if r.1.flt.enabled then r.1.flt.file else none } else r.1
 
